@@ -1,6 +1,6 @@
 (* C38: proofs about the SmallVector model (Model/SmallVecModel.v). *)
 From Coq Require Import ZArith List Bool Lia Arith.
-From DV Require Import Model.SmallVecLife Model.SmallVecModel Model.C38Check.
+From DV Require Import Model.SmallVecLife Model.SmallVecModel.
 Import ListNotations.
 Local Open Scope Z_scope.
 
@@ -79,19 +79,19 @@ Lemma readv_mid a v b i g : length a = i -> readv (a ++ Alive v :: b) i g = Ok (
 Proof. intros H. unfold readv. rewrite nth_error_mid by exact H. reflexivity. Qed.
 
 (* ------------------------------------------------------------------ loops: closed forms *)
-Lemma move_loop_spec : forall l2 l1 tl r g,
-  move_loop (length l2) (length l1) (repeat Raw (length l1) ++ map Alive l2 ++ tl) (map Alive l1 ++ repeat Raw (length l2 + r)) g
-  = Ok ((repeat Raw (length l1 + length l2) ++ tl, map Alive (l1 ++ l2) ++ repeat Raw r),
+Lemma move_loop_spec : forall l2 l1 tl tl2 g,
+  move_loop (length l2) (length l1) (repeat Raw (length l1) ++ map Alive l2 ++ tl) (map Alive l1 ++ repeat Raw (length l2) ++ tl2) g
+  = Ok ((repeat Raw (length l1 + length l2) ++ tl, map Alive (l1 ++ l2) ++ tl2),
         gadd g (Z.of_nat (length l2)) (Z.of_nat (length l2))).
 Proof.
-  induction l2 as [|x l2 IH]; intros l1 tl r g.
-  - cbn [length move_loop map app]. unfold ret. rewrite Nat.add_0_r, app_nil_r, gadd_0. reflexivity.
+  induction l2 as [|x l2 IH]; intros l1 tl tl2 g.
+  - cbn [length move_loop map app repeat]. unfold ret. rewrite Nat.add_0_r, app_nil_r, gadd_0. reflexivity.
   - cbn [length move_loop map app].
     rewrite (bind_ok _ _ _ _ _ (take_mid _ x _ _ g (repeat_length _ _))). cbn [fst snd].
     assert (L1 : length (map Alive l1) = length l1) by apply map_length.
-    cbn [repeat plus]. rewrite (bind_ok _ _ _ _ _ (construct_mid _ _ _ x g L1)).
+    cbn [repeat app]. rewrite (bind_ok _ _ _ _ _ (construct_mid _ _ _ x g L1)).
     rewrite (bind_ok _ _ _ _ _ (destroy_mid _ Moved _ _ (gadd g 1 0) (repeat_length _ _) ltac:(discriminate))).
-    specialize (IH (l1 ++ [x]) tl r (gadd (gadd g 1 0) 0 1)).
+    specialize (IH (l1 ++ [x]) tl tl2 (gadd (gadd g 1 0) 0 1)).
     rewrite app_length in IH. cbn [length] in IH. rewrite Nat.add_1_r in IH.
     rewrite repeat_snoc, map_app in IH. cbn [map] in IH. rewrite <- !app_assoc in IH. cbn [app] in IH.
     rewrite IH. rewrite !gadd_gadd.
@@ -290,6 +290,35 @@ Section Vec.
   Lemma repeat_raw_app a b : repeat Raw a ++ repeat Raw b = repeat Raw (a + b).
   Proof. symmetry; apply repeat_app. Qed.
 
+  (* moveToHeap into a block whose first (length l) cells are raw; tl2 = the rest (raw, or already holding the new element) *)
+  Lemma moveToHeap_inl l id newCap tl2 g : (length l <= N)%nat ->
+    moveToHeap id newCap (repeat Raw (length l) ++ tl2) (ivec l) g =
+      Ok (mkVec true (length l) (repeat Raw N) id newCap (map Alive l ++ tl2), gadd g (Z.of_nat (length l)) (Z.of_nat (length l))).
+  Proof.
+    intros H1. unfold moveToHeap, data, ivec. cbn [heapb vsize inl].
+    pose proof (move_loop_spec l [] (repeat Raw (N - length l)) tl2 g) as E.
+    cbn [length map app repeat] in E. rewrite (bind_ok _ _ _ _ _ E). cbn [fst snd negb].
+    unfold bind, ret. cbn [plus]. rewrite repeat_raw_app.
+    replace (length l + (N - length l))%nat with N by lia. reflexivity.
+  Qed.
+
+  Lemma moveToHeap_heap l id0 cap id newCap tl2 g : (length l <= cap)%nat -> is_live g id0 = true ->
+    moveToHeap id newCap (repeat Raw (length l) ++ tl2) (hvec l id0 cap) g =
+      Ok (mkVec true (length l) (repeat Raw N) id newCap (map Alive l ++ tl2),
+          gfree (gadd g (Z.of_nat (length l)) (Z.of_nat (length l))) id0).
+  Proof.
+    intros H1 HL. unfold moveToHeap, data, hvec. cbn [heapb vsize hcells].
+    pose proof (move_loop_spec l [] (repeat Raw (cap - length l)) tl2 g) as E.
+    cbn [length map app repeat] in E. rewrite (bind_ok _ _ _ _ _ E). cbn [fst snd plus].
+    unfold release, set_data. cbn [heapb hcells hblk].
+    rewrite all_raw_app, !all_raw_repeat. cbn [andb].
+    rewrite (bind_ok _ _ _ _ _ (free_block_ok _ id0 ltac:(rewrite is_live_gadd; exact HL))).
+    reflexivity.
+  Qed.
+
+  Lemma repeat_split newCap n : (n <= newCap)%nat -> repeat Raw newCap = repeat Raw n ++ repeat Raw (newCap - n).
+  Proof. intros H. rewrite repeat_raw_app. f_equal. lia. Qed.
+
   Lemma growToHeap_inl l newCap g : (length l <= N)%nat -> (length l <= newCap)%nat ->
     growToHeap alloc szT newCap (ivec l) g =
       Ok (hvec l (length (blocks g)) newCap,
@@ -297,13 +326,7 @@ Section Vec.
   Proof.
     intros H1 H2. unfold growToHeap.
     rewrite (bind_ok _ _ _ _ _ (new_block_ok g _)).
-    unfold data, ivec. cbn [heapb vsize inl].
-    pose proof (move_loop_spec l [] (repeat Raw (N - length l)) (newCap - length l) (galloc g (Z.of_nat newCap * szT))) as E.
-    cbn [length map app repeat] in E.
-    assert (E' : repeat Raw newCap = repeat Raw (length l + (newCap - length l))) by (f_equal; lia).
-    rewrite E'. rewrite (bind_ok _ _ _ _ _ E). cbn [fst snd negb].
-    unfold bind, ret. cbn [plus]. rewrite repeat_raw_app.
-    replace (length l + (N - length l))%nat with N by lia. reflexivity.
+    rewrite (repeat_split newCap (length l) H2). apply moveToHeap_inl. exact H1.
   Qed.
 
   Lemma growToHeap_heap l id cap newCap g : (length l <= cap)%nat -> (length l <= newCap)%nat -> is_live g id = true ->
@@ -313,15 +336,8 @@ Section Vec.
   Proof.
     intros H1 H2 HL. unfold growToHeap.
     rewrite (bind_ok _ _ _ _ _ (new_block_ok g _)).
-    unfold data, hvec. cbn [heapb vsize hcells].
-    pose proof (move_loop_spec l [] (repeat Raw (cap - length l)) (newCap - length l) (galloc g (Z.of_nat newCap * szT))) as E.
-    cbn [length map app repeat] in E.
-    assert (E' : repeat Raw newCap = repeat Raw (length l + (newCap - length l))) by (f_equal; lia).
-    rewrite E'. rewrite (bind_ok _ _ _ _ _ E). cbn [fst snd plus].
-    unfold release, set_data. cbn [heapb hcells hblk].
-    rewrite all_raw_app, !all_raw_repeat. cbn [andb].
-    rewrite (bind_ok _ _ _ _ _ (free_block_ok _ id ltac:(rewrite is_live_gadd, is_live_galloc, HL; apply orb_true_r))).
-    reflexivity.
+    rewrite (repeat_split newCap (length l) H2). apply moveToHeap_heap; [exact H1|].
+    rewrite is_live_galloc, HL. apply orb_true_r.
   Qed.
 
   Lemma frame_alloc g bytes a b : frame g (gadd (galloc g bytes) a b) None (Some (length (blocks g))).
@@ -402,28 +418,6 @@ Section Vec.
       + exists (hvec l0 id cap), g. split5; auto. apply (frame_same g (hvec l0 id cap) HL).
   Qed.
 
-  Lemma eb_prepare_ok v l g : vec_rep v l -> own_live g v ->
-    exists v' g', eb_prepare alloc N szT v g = Ok (v', g') /\ vec_rep v' l /\ (length l < capacity N v')%nat /\
-      bal g' = bal g /\ frame g g' (own v) (own v').
-  Proof.
-    intros R HL. pose proof R as R0. destruct R as [l0 H|l0 id cap H H']; unfold eb_prepare; simpl (heapb _); simpl (hcap _); simpl (vsize _); cbn [negb].
-    - destruct (Nat.ltb_spec (length l0) N) as [Hn|Hn].
-      + exists (ivec l0), g. split5; auto. apply (frame_same g (ivec l0) HL).
-      + destruct (growToHeap_ok _ _ g (N * 2) R0 HL ltac:(lia) ltac:(lia)) as (id' & g' & E & B & F).
-        exists (hvec l0 id' (N * 2)), g'. split5; auto. apply rep_heap; lia. cbn; lia.
-    - destruct (Nat.eqb_spec (length l0) cap) as [Hn|Hn].
-      + destruct (growToHeap_ok _ _ g (cap * 2) R0 HL ltac:(lia) ltac:(lia)) as (id' & g' & E & B & F).
-        exists (hvec l0 id' (cap * 2)), g'. split5; auto. apply rep_heap; lia. cbn; lia.
-      + exists (hvec l0 id cap), g. split5; auto. cbn; lia. apply (frame_same g (hvec l0 id cap) HL).
-  Qed.
-
-  Lemma eb_prepare_nogrow v l g : vec_rep v l -> (length l < capacity N v)%nat -> eb_prepare alloc N szT v g = Ok (v, g).
-  Proof.
-    intros [l0 H|l0 id cap H H']; unfold eb_prepare, capacity; simpl (heapb _); simpl (hcap _); simpl (vsize _); cbn [negb]; intros Hc.
-    - destruct (Nat.ltb_spec (length l0) N); [reflexivity|lia].
-    - destruct (Nat.eqb_spec (length l0) cap); [lia|reflexivity].
-  Qed.
-
   Lemma push_cell v l x g : vec_rep v l -> (length l < capacity N v)%nat ->
     exists v', bind (construct (data v) (vsize v) x) (fun d => ret (set_size (set_data v d) (S (vsize v)))) g = Ok (v', gadd g 1 0) /\
       vec_rep v' (l ++ [x]) /\ own v' = own v /\ capacity N v' = capacity N v.
@@ -440,15 +434,43 @@ Section Vec.
     - rewrite app_length; cbn; lia.
   Qed.
 
+  Lemma hvec_push l x id cap : (length l < cap)%nat ->
+    set_size (mkVec true (length l) (repeat Raw N) id cap (map Alive l ++ Alive x :: repeat Raw (cap - length l - 1))) (S (length l))
+    = hvec (l ++ [x]) id cap.
+  Proof.
+    intros H. unfold set_size, hvec. cbn [heapb vsize inl hblk hcap hcells].
+    rewrite app_length, map_app, <- app_assoc. cbn [length map app].
+    f_equal; [lia|]. do 3 f_equal. lia.
+  Qed.
+
   Lemma emplace_back_ok x v l g : vec_rep v l -> own_live g v -> vpost v l g (l ++ [x]) (emplace_back alloc N szT x v g).
   Proof.
-    intros R HL. destruct (eb_prepare_ok _ _ g R HL) as (v1 & g1 & E1 & R1 & C1 & B1 & F1).
-    destruct (push_cell v1 l x g1 R1 C1) as (v' & E2 & R2 & O2 & _).
-    exists v', (gadd g1 1 0). split.
-    - unfold emplace_back. rewrite (bind_ok _ _ _ _ _ E1). exact E2.
-    - split; [exact R2|]. split.
-      + rewrite bal_gadd, B1, app_length. cbn [length]. lia.
-      + rewrite O2. apply frame_gadd. exact F1.
+    intros R HL. destruct (data_rep _ _ R) as (D & S & C & C1). unfold emplace_back.
+    destruct (Nat.ltb_spec (vsize v) (capacity N v)) as [Hlt|Hge].
+    - rewrite S in Hlt. destruct (push_cell v l x g R Hlt) as (v' & E & R' & O' & _).
+      exists v', (gadd g 1 0). split; [exact E|]. split; [exact R'|]. split.
+      + rewrite bal_gadd, app_length. cbn [length]. lia.
+      + rewrite O'. apply frame_gadd, frame_same. exact HL.
+    - assert (Hfull : length l = capacity N v) by lia.
+      set (newCap := (capacity N v * 2)%nat).
+      rewrite (bind_ok _ _ _ _ _ (new_block_ok g _)).
+      assert (Hsplit : repeat Raw newCap = repeat Raw (length l) ++ Raw :: repeat Raw (newCap - length l - 1)).
+      { replace newCap with (length l + Datatypes.S (newCap - length l - 1))%nat at 1 by (unfold newCap; lia).
+        rewrite repeat_app. reflexivity. }
+      rewrite Hsplit, S.
+      rewrite (bind_ok _ _ _ _ _ (construct_mid _ _ _ x _ (repeat_length _ _))).
+      pose proof R as R0. destruct R as [l0 H|l0 id0 cap H H'].
+      + assert (Cv : capacity N (ivec l0) = N) by reflexivity. unfold newCap in *. rewrite Cv in *. clear Cv.
+        rewrite (bind_ok _ _ _ _ _ (moveToHeap_inl l0 _ _ _ _ H)). unfold ret. cbn [vsize].
+        rewrite hvec_push by lia. rewrite gadd_gadd.
+        eexists _, _. split; [reflexivity|]. split; [apply rep_heap; try rewrite app_length; cbn [length]; lia|].
+        split; [rewrite bal_gadd, bal_galloc, app_length; cbn [length]; lia|]. apply frame_alloc.
+      + assert (Cv : capacity N (hvec l0 id0 cap) = cap) by reflexivity. unfold newCap in *. rewrite Cv in *. clear Cv.
+        assert (L : is_live g id0 = true) by (apply HL; reflexivity).
+        rewrite (bind_ok _ _ _ _ _ (moveToHeap_heap l0 id0 cap _ _ _ _ H ltac:(rewrite is_live_gadd, is_live_galloc, L; apply orb_true_r))).
+        unfold ret. cbn [vsize]. rewrite hvec_push by lia. rewrite gadd_gadd.
+        eexists _, _. split; [reflexivity|]. split; [apply rep_heap; try rewrite app_length; cbn [length]; lia|].
+        split; [rewrite bal_gfree, bal_gadd, bal_galloc, app_length; cbn [length]; lia|]. apply frame_realloc. exact L.
   Qed.
 
   (* ---------------------------------------------------------------- composition *)
@@ -597,17 +619,11 @@ Section Vec.
     - unfold spec_erase. rewrite app_length, L1, L2. lia.
   Qed.
 
-  Lemma push_self_ok i x v l g : vec_rep v l -> nth_error l i = Some x -> (length l < capacity N v)%nat ->
-    exists v', push_self alloc N szT i v g = Ok (v', gadd g 1 0) /\ vec_rep v' (l ++ [x]) /\ own v' = own v.
+  Lemma push_self_ok i x v l g : vec_rep v l -> own_live g v -> nth_error l i = Some x ->
+    vpost v l g (l ++ [x]) (push_self alloc N szT i v g).
   Proof.
-    intros R Hx Hc. destruct (push_cell v l x g R Hc) as (v' & E & R' & O' & _).
-    exists v'. split; [|split; assumption].
-    unfold push_self. rewrite (bind_ok _ _ _ _ _ (eb_prepare_nogrow v l g R Hc)).
-    assert (RD : (if heapb v then if (hblk v =? hblk v)%nat then readv (hcells v) i else fail EReadFreed else readv (inl v) i) g = Ok (x, g)).
-    { destruct R as [l0 H|l0 id cap H H']; simpl (heapb _); cbn iota.
-      - simpl (inl _). apply readv_alive; exact Hx.
-      - rewrite Nat.eqb_refl. simpl (hcells _). apply readv_alive; exact Hx. }
-    rewrite (bind_ok _ _ _ _ _ RD). exact E.
+    intros R HL Hx. destruct (data_rep _ _ R) as (D & _). unfold push_self. rewrite D.
+    rewrite (bind_ok _ _ _ _ _ (readv_alive l _ i x g Hx)). apply emplace_back_ok; assumption.
   Qed.
 
   (* ---------------------------------------------------------------- copies *)
@@ -682,12 +698,11 @@ Section Vec.
   Proof.
     intros [l0 H|l0 id cap H H']; unfold move_into; simpl (heapb _); cbn [negb]; cbn iota.
     - simpl (vsize _). rewrite ivec_nil. simpl (inl _).
-      pose proof (move_loop_spec l0 [] (repeat Raw (N - length l0)) (N - length l0) g) as ML.
-      cbn [length map app repeat plus] in ML.
+      pose proof (move_loop_spec l0 [] (repeat Raw (N - length l0)) (repeat Raw (N - length l0)) g) as ML.
+      cbn [length map app repeat plus] in ML. rewrite !repeat_raw_app in ML.
       replace (length l0 + (N - length l0))%nat with N in ML by lia.
       rewrite (bind_ok _ _ _ _ _ ML). cbn [fst snd]. unfold ret.
       eexists _, _, _. split; [reflexivity|].
-      rewrite repeat_raw_app. replace (length l0 + (N - length l0))%nat with N by lia.
       rewrite <- ivec_nil. split; [apply (rep_inl l0 H)|]. split; [apply rep_nil|]. split; reflexivity.
     - unfold ret. exists (hvec l0 id cap), (ivec []), 0. rewrite gadd_0, !ivec_nil. split; [reflexivity|].
       split; [apply rep_heap; assumption|]. split; [rewrite <- ivec_nil; apply rep_nil|]. split; reflexivity.
@@ -886,13 +901,28 @@ Section Vec.
   Lemma client_tmp_ok n g : client_tmp n g = Ok (tt, gadd g n n).
   Proof. reflexivity. Qed.
 
-  Definition selfref_ok (o : op) (s : slots) : Prop :=
-    match o with OPushSelf k _ => at_capacity N s k = false | _ => True end.
+  Lemma vpost_gadd_l v l g a l' r : vpost v l (gadd g a a) l' r -> vpost v l g l' r.
+  Proof.
+    intros (v' & g' & E & R & B & F). exists v', g'. split; [exact E|]. split; [exact R|]. split.
+    - rewrite bal_gadd in B. lia.
+    - eapply frame_gadd_l. exact F.
+  Qed.
 
-  Lemma step_ok o s g sp sp' : Inv s g sp -> spec_step o sp = Some sp' -> selfref_ok o s ->
+  Lemma resize_val_ok n x v l g : vec_rep v l -> own_live g v ->
+    vpost v l g (spec_resize n x l) (resize_val alloc N szT n x v g).
+  Proof.
+    intros R HL. unfold resize_val. destruct (Nat.ltb_spec (capacity N v) n) as [Hg|Hg].
+    - rewrite (bind_ok _ _ _ _ _ (client_tmp_ok 1 g)). apply (vpost_gadd_l _ _ _ 1).
+      destruct (ensure_vpost n v l (gadd g 1 1) R HL) as (v1 & g1 & E & P). rewrite (bind_ok _ _ _ _ _ E).
+      eapply vpost_trans; [exact P|]. destruct P as (v1' & g1' & E' & R1 & _ & F1). inversion E'; subst v1' g1'.
+      apply resize_ok; [exact R1|]. intros id Hid. apply (fr_new _ _ _ _ F1). exact Hid.
+    - apply resize_ok; assumption.
+  Qed.
+
+  Lemma step_ok o s g sp sp' : Inv s g sp -> spec_step o sp = Some sp' ->
     exists s' g', step alloc N szT o s g = Ok (s', g') /\ Inv s' g' sp'.
   Proof.
-    intros I Hsp Hself. destruct o; cbn [step spec_step] in *.
+    intros I Hsp. destruct o; cbn [step spec_step] in *.
     - (* OCtor *)
       destruct (sfree sp k) eqn:Ef; [|discriminate]. inversion Hsp; subst sp'.
       destruct (free_slot _ g _ _ I Ef) as (Hs & Hp & Eg). rewrite (bind_ok _ _ _ _ _ Eg). unfold ret.
@@ -908,7 +938,7 @@ Section Vec.
       destruct (sfree sp k) eqn:Ef; [|discriminate]. inversion Hsp; subst sp'.
       destruct (free_slot _ g _ _ I Ef) as (Hs & Hp & Eg). rewrite (bind_ok _ _ _ _ _ Eg).
       rewrite (bind_ok _ _ _ _ _ (client_tmp_ok 1 g)). rewrite empty_vec_ivec.
-      destruct (Inv_vpost_new _ _ _ k _ _ (Inv_gadd _ _ _ 1 I) Hs Hp (resize_ok n x _ _ _ rep_nil (live_nil _))) as (v' & g' & E & I').
+      destruct (Inv_vpost_new _ _ _ k _ _ (Inv_gadd _ _ _ 1 I) Hs Hp (resize_val_ok n x _ _ _ rep_nil (live_nil _))) as (v' & g' & E & I').
       rewrite (bind_ok _ _ _ _ _ E). unfold ret. rewrite spec_resize_nil in I'. eauto.
     - (* OCtorIL *)
       destruct (sfree sp k) eqn:Ef; [|discriminate]. inversion Hsp; subst sp'.
@@ -989,7 +1019,7 @@ Section Vec.
       destruct (sget sp k) as [l|] eqn:Ek; [|discriminate]. inversion Hsp; subst sp'.
       destruct (obj_slot _ g _ _ _ I Ek) as (v & Hs & Hp & R & HL & Eg). rewrite (bind_ok _ _ _ _ _ Eg).
       rewrite (bind_ok _ _ _ _ _ (client_tmp_ok _ g)).
-      destruct (Inv_vpost _ _ _ k v l _ _ (Inv_gadd _ _ _ 1 I) Hs Hp (resize_ok n x v l (gadd g 1 1) R HL)) as (v' & g' & E & I').
+      destruct (Inv_vpost _ _ _ k v l _ _ (Inv_gadd _ _ _ 1 I) Hs Hp (resize_val_ok n x v l (gadd g 1 1) R HL)) as (v' & g' & E & I').
       rewrite (bind_ok _ _ _ _ _ E). unfold ret. eauto.
     - (* OReserve *)
       destruct (sget sp k) as [l|] eqn:Ek; [|discriminate]. inversion Hsp; subst sp'.
@@ -1017,26 +1047,26 @@ Section Vec.
       destruct (sget sp k) as [l|] eqn:Ek; [|discriminate]. destruct (nth_error l i) as [x|] eqn:Ex; [|discriminate].
       inversion Hsp; subst sp'.
       destruct (obj_slot _ g _ _ _ I Ek) as (v & Hs & Hp & R & HL & Eg). rewrite (bind_ok _ _ _ _ _ Eg).
-      unfold selfref_ok, at_capacity in Hself. rewrite Hs in Hself. apply Nat.leb_gt in Hself.
-      destruct (data_rep _ _ R) as (_ & S & _ & _). rewrite S in Hself.
-      destruct (push_self_ok i x v l g R Ex Hself) as (v' & E & R' & O'). rewrite (bind_ok _ _ _ _ _ E). unfold ret.
-      assert (P : vpost v l g (l ++ [x]) (Ok (v', gadd g 1 0))).
-      { apply vpost_same; auto. rewrite app_length. cbn [length]. lia. }
-      destruct (Inv_vpost _ _ _ k v _ _ _ I Hs Hp P) as (v2 & g2 & E2 & I2). inversion E2; subst v2 g2. eauto.
+      destruct (Inv_vpost _ _ _ k v l _ _ I Hs Hp (push_self_ok i x v l g R HL Ex)) as (v' & g' & E & I').
+      rewrite (bind_ok _ _ _ _ _ E). unfold ret. eauto.
+    - (* OResizeSelf *)
+      destruct (sget sp k) as [l|] eqn:Ek; [|discriminate]. destruct (nth_error l i) as [x|] eqn:Ex; [|discriminate].
+      inversion Hsp; subst sp'.
+      destruct (obj_slot _ g _ _ _ I Ek) as (v & Hs & Hp & R & HL & Eg). rewrite (bind_ok _ _ _ _ _ Eg).
+      destruct (data_rep _ _ R) as (D & _). rewrite D. rewrite (bind_ok _ _ _ _ _ (readv_alive l _ i x g Ex)).
+      destruct (Inv_vpost _ _ _ k v l _ _ I Hs Hp (resize_val_ok n x v l g R HL)) as (v' & g' & E & I').
+      rewrite (bind_ok _ _ _ _ _ E). unfold ret. eauto.
   Qed.
 
   (* ---------------------------------------------------------------- whole histories *)
   Lemma run_ok : forall ops s g sp sp', Inv s g sp -> spec_run ops sp = Some sp' ->
-    selfref_growth alloc N szT ops s g = false ->
     exists s' g', run alloc N szT ops s g = Ok (s', g') /\ Inv s' g' sp'.
   Proof.
-    induction ops as [|o ops IH]; intros s g sp sp' I Hsp Hself.
+    induction ops as [|o ops IH]; intros s g sp sp' I Hsp.
     - cbn in *. inversion Hsp; subst. unfold ret. eauto.
     - cbn [spec_run] in Hsp. destruct (spec_step o sp) as [sp1|] eqn:E1; [|discriminate].
-      cbn [selfref_growth] in Hself. apply orb_false_elim in Hself. destruct Hself as [H1 H2].
-      assert (Hok : selfref_ok o s) by (destruct o; cbn; auto).
-      destruct (step_ok o s g sp sp1 I E1 Hok) as (s1 & g1 & Es & I1).
-      rewrite Es in H2. cbn [run]. rewrite (bind_ok _ _ _ _ _ Es). eapply IH; eauto.
+      destruct (step_ok o s g sp sp1 I E1) as (s1 & g1 & Es & I1).
+      cbn [run]. rewrite (bind_ok _ _ _ _ _ Es). eapply IH; eauto.
   Qed.
 
   Lemma total_none K : total (repeat None K) = 0.
@@ -1127,76 +1157,57 @@ Qed.
 
 (* ------------------------------------------------------------------ the theorems behind Props/Properties_C38.v *)
 Lemma reach_inv alloc N szT K ops sp' : (1 <= N)%nat ->
-  spec_run ops (spec_init K) = Some sp' -> selfref_growth alloc N szT ops (init_slots K) led0 = false ->
+  spec_run ops (spec_init K) = Some sp' ->
   exists s g, run alloc N szT ops (init_slots K) led0 = Ok (s, g) /\ Inv alloc N s g sp'.
-Proof. intros HN Hsp Hself. eapply run_ok; [exact HN| |exact Hsp|exact Hself]. apply Inv_init; exact HN. Qed.
+Proof. intros HN Hsp. eapply run_ok; [exact HN| |exact Hsp]. apply Inv_init; exact HN. Qed.
 
 Lemma C38_refines_proof : forall alloc N szT K ops sp', (1 <= N)%nat ->
-  spec_run ops (spec_init K) = Some sp' -> selfref_growth alloc N szT ops (init_slots K) led0 = false ->
+  spec_run ops (spec_init K) = Some sp' ->
   exists s g, run alloc N szT ops (init_slots K) led0 = Ok (s, g) /\ Forall2 slot_matches s sp'.
 Proof.
-  intros alloc N szT K ops sp' HN Hsp Hself. destruct (reach_inv alloc N szT K ops sp' HN Hsp Hself) as (s & g & E & I).
+  intros alloc N szT K ops sp' HN Hsp. destruct (reach_inv alloc N szT K ops sp' HN Hsp) as (s & g & E & I).
   exists s, g. split; [exact E|]. eapply Inv_matches; eauto.
 Qed.
 
 Lemma C38_lifetimes_proof : forall alloc N szT K ops sp', (1 <= N)%nat ->
-  spec_run ops (spec_init K) = Some sp' -> selfref_growth alloc N szT ops (init_slots K) led0 = false ->
+  spec_run ops (spec_init K) = Some sp' ->
   exists s g, run alloc N szT ops (init_slots K) led0 = Ok (s, g) /\
     nctor g - ndtor g = total sp' /\
     (Forall (eq None) sp' ->
        nctor g = ndtor g /\ Forall (fun b => b_live b = false) (blocks g) /\ Forall (eq None) s).
 Proof.
-  intros alloc N szT K ops sp' HN Hsp Hself. destruct (reach_inv alloc N szT K ops sp' HN Hsp Hself) as (s & g & E & I).
+  intros alloc N szT K ops sp' HN Hsp. destruct (reach_inv alloc N szT K ops sp' HN Hsp) as (s & g & E & I).
   exists s, g. split; [exact E|]. split; [exact (inv_bal _ _ _ _ _ I)|]. intros Hn. eapply Inv_clean; eauto.
 Qed.
 
-Lemma C38_heap_aligned_proof : forall alloc al N szT K ops sp', (1 <= N)%nat ->
-  (forall c n, (16 | alloc c n)) -> (al | 16) -> (al | szT) ->
-  spec_run ops (spec_init K) = Some sp' -> selfref_growth alloc N szT ops (init_slots K) led0 = false ->
-  exists s g, run alloc N szT ops (init_slots K) led0 = Ok (s, g) /\
+Lemma pow2_le16_divides al : is_pow2 al -> al <= 16 -> (al | 16).
+Proof.
+  intros (e & He & ->) Ho.
+  assert (e <= 4). { destruct (Z.le_gt_cases e 4); [assumption|]. exfalso.
+    assert (2 ^ 5 <= 2 ^ e) by (apply Z.pow_le_mono_r; lia). change (2 ^ 5) with 32 in *. lia. }
+  exists (2 ^ (4 - e)). rewrite <- Z.pow_add_r by lia. replace (4 - e + e) with 4 by lia. reflexivity.
+Qed.
+
+(* allocate() returns storage aligned for T: alignedMalloc(bytes, alignof(T)) for alignof(T) > 16, ::operator new otherwise *)
+Lemma allocate_oracle_aligned onew amalloc al : is_pow2 al ->
+  (forall c n, (16 | onew c n)) -> (forall c n a, is_pow2 a -> (a | amalloc c n a)) ->
+  forall c n, (al | allocate_oracle onew amalloc al c n).
+Proof.
+  intros Hp H16 HA c n. unfold allocate_oracle. destruct (Z.ltb_spec 16 al) as [Hgt|Hle].
+  - apply HA. exact Hp.
+  - eapply Z.divide_trans; [apply pow2_le16_divides; assumption|apply H16].
+Qed.
+
+Lemma C38_heap_aligned_proof : forall onew amalloc al N szT K ops sp', (1 <= N)%nat ->
+  (forall c n, (16 | onew c n)) -> (forall c n a, is_pow2 a -> (a | amalloc c n a)) -> is_pow2 al -> (al | szT) ->
+  spec_run ops (spec_init K) = Some sp' ->
+  exists s g, run (allocate_oracle onew amalloc al) N szT ops (init_slots K) led0 = Ok (s, g) /\
     forall k v i, nth_error s k = Some (Some v) -> heapb v = true -> (al | elem_addr szT (data_addr al 0 g v) i).
 Proof.
-  intros alloc al N szT K ops sp' HN HA Hal Hsz Hsp Hself.
-  destruct (reach_inv alloc N szT K ops sp' HN Hsp Hself) as (s & g & E & I).
-  exists s, g. split; [exact E|]. eapply Inv_heap_aligned; eauto.
-Qed.
-
-(* witnesses of the two refutations *)
-Definition wit_alloc : nat -> Z -> Z := fun c _ => 16 + 4096 * Z.of_nat c.
-Definition wit_ops : list op := [OCtor 0; OPush 0 0 1; OPush 0 0 2].
-Definition wit_run := Eval vm_compute in (run wit_alloc 1 32 wit_ops (init_slots 1) led0).
-
-Lemma wit_alloc_16 : forall c n, (16 | wit_alloc c n).
-Proof. intros c n. exists (1 + 256 * Z.of_nat c). unfold wit_alloc. lia. Qed.
-
-Lemma C38_refuted_proof :
-  exists alloc al szT N ops s g v,
-    (forall c n, (16 | alloc c n)) /\ is_pow2 al /\ (al | szT) /\ (1 <= N)%nat /\
-    spec_run ops (spec_init 1) <> None /\ selfref_growth alloc N szT ops (init_slots 1) led0 = false /\
-    run alloc N szT ops (init_slots 1) led0 = Ok (s, g) /\
-    nth_error s 0 = Some (Some v) /\ heapb v = true /\ (0 < vsize v)%nat /\
-    ~ (al | elem_addr szT (data_addr al 0 g v) 0).
-Proof.
-  exists wit_alloc, 32, 32, 1%nat, wit_ops.
-  destruct wit_run as [[s g]|e] eqn:E; [|vm_compute in E; discriminate].
-  pose proof E as E0. vm_compute in E0. inversion E0; subst s g. clear E0.
-  eexists _, _, _.
-  split; [exact wit_alloc_16|]. split; [exists 5; split; [lia|reflexivity]|]. split; [apply Z.divide_refl|]. split; [lia|].
-  split; [vm_compute; discriminate|]. split; [vm_compute; reflexivity|]. split; [vm_compute; reflexivity|].
-  split; [vm_compute; reflexivity|]. split; [reflexivity|]. split; [cbn; lia|].
-  intros [z Hz]. match type of Hz with ?a = _ => let a' := eval vm_compute in a in change a with a' in Hz end. lia.
-Qed.
-
-Definition wit_self_ops : list op := [OCtor 0; OPush 0 0 11; OPush 0 0 22; OPushSelf 0 0].
-
-Lemma C38_refuted_selfref_proof :
-  exists alloc N szT ops sp',
-    (forall c n, (16 | alloc c n)) /\ (1 <= N)%nat /\ spec_run ops (spec_init 1) = Some sp' /\
-    selfref_growth alloc N szT ops (init_slots 1) led0 = true /\
-    run alloc N szT ops (init_slots 1) led0 = Err EReadDead.
-Proof.
-  exists wit_alloc, 2%nat, 8, wit_self_ops, [Some [11; 22; 11]].
-  split; [exact wit_alloc_16|]. split; [lia|]. repeat split; vm_compute; reflexivity.
+  intros onew amalloc al N szT K ops sp' HN H16 HA Hp Hsz Hsp.
+  destruct (reach_inv (allocate_oracle onew amalloc al) N szT K ops sp' HN Hsp) as (s & g & E & I).
+  exists s, g. split; [exact E|].
+  eapply Inv_heap_aligned with (A := al) (sp := sp'); eauto using allocate_oracle_aligned, Z.divide_refl.
 Qed.
 
 (* ------------------------------------------------------------------ the whole property for one history *)
@@ -1210,38 +1221,39 @@ Definition C38_property (alloc : nat -> Z -> Z) (al szT : Z) (N K : nat) (ops : 
       (forall k v i obj, nth_error s k = Some (Some v) -> (obj_align al | obj) ->
          (al | elem_addr szT (data_addr al obj g v) i)).
 
-Lemma pow2_le16_divides al : is_pow2 al -> overaligned al = false -> (al | 16).
+Lemma C38_holds_proof : forall onew amalloc al szT N K ops,
+  (forall c n, (16 | onew c n)) -> (forall c n a, is_pow2 a -> (a | amalloc c n a)) ->
+  is_pow2 al -> (al | szT) -> (1 <= N)%nat ->
+  C38_property (allocate_oracle onew amalloc al) al szT N K ops.
 Proof.
-  intros (e & He & ->) Ho. unfold overaligned in Ho. apply Z.ltb_ge in Ho.
-  assert (e <= 4). { destruct (Z.le_gt_cases e 4); [assumption|]. exfalso.
-    assert (2 ^ 5 <= 2 ^ e) by (apply Z.pow_le_mono_r; lia). change (2 ^ 5) with 32 in *. lia. }
-  exists (2 ^ (4 - e)). rewrite <- Z.pow_add_r by lia. replace (4 - e + e) with 4 by lia. reflexivity.
-Qed.
-
-Lemma C38_holds_except_proof : forall alloc al szT N K ops,
-  (forall c n, (16 | alloc c n)) -> is_pow2 al -> (al | szT) -> (1 <= N)%nat ->
-  overaligned al = false -> selfref_growth alloc N szT ops (init_slots K) led0 = false ->
-  C38_property alloc al szT N K ops.
-Proof.
-  intros alloc al szT N K ops HA Hp Hsz HN Ho Hself sp' Hsp.
-  destruct (reach_inv alloc N szT K ops sp' HN Hsp Hself) as (s & g & E & I).
+  intros onew amalloc al szT N K ops H16 HA Hp Hsz HN sp' Hsp.
+  destruct (reach_inv (allocate_oracle onew amalloc al) N szT K ops sp' HN Hsp) as (s & g & E & I).
   exists s, g. split; [exact E|]. split; [eapply Inv_matches; eauto|]. split; [exact (inv_bal _ _ _ _ _ I)|].
   split; [intros Hn; eapply Inv_clean; eauto|].
   intros k v i obj Hk Hobj. destruct (heapb v) eqn:Hh.
   - replace (data_addr al obj g v) with (data_addr al 0 g v) by (unfold data_addr; rewrite Hh; reflexivity).
-    eapply Inv_heap_aligned with (A := 16) (sp := sp'); eauto using pow2_le16_divides.
+    eapply Inv_heap_aligned with (A := al) (sp := sp'); eauto using allocate_oracle_aligned, Z.divide_refl.
   - apply inline_aligned_proof; assumption.
 Qed.
 
-Lemma C38_full_refuted_proof :
-  ~ (forall alloc al szT N K ops, (forall c n, (16 | alloc c n)) -> is_pow2 al -> (al | szT) -> (1 <= N)%nat ->
-       C38_property alloc al szT N K ops).
-Proof.
-  intros H.
-  destruct (H wit_alloc 32 32 1%nat 1%nat wit_ops wit_alloc_16 ltac:(exists 5; split; [lia|reflexivity]) (Z.divide_refl 32) (le_n 1)
-              [Some [1; 2]] ltac:(vm_compute; reflexivity)) as (s & g & E & _ & _ & _ & HAl).
-  assert (E0 : run wit_alloc 1 32 wit_ops (init_slots 1) led0 = wit_run) by (vm_compute; reflexivity).
-  rewrite E0 in E. unfold wit_run in E. inversion E; subst s g. clear E E0.
-  destruct (HAl 0%nat _ 0%nat 0 eq_refl (Z.divide_0_r _)) as [z Hz].
-  match type of Hz with ?a = _ => let a' := eval vm_compute in a in change a with a' in Hz end. lia.
-Qed.
+(* ------------------------------------------------------------------ regression witnesses (the former refutations) *)
+(* ::operator new that returns addresses == 16 (mod 32); alignedMalloc that returns multiples of the alignment *)
+Definition wit_alloc : nat -> Z -> Z := fun c _ => 16 + 4096 * Z.of_nat c.
+Definition wit_amalloc : nat -> Z -> Z -> Z := fun c _ a => a * (64 * (Z.of_nat c + 1)).
+Definition wit_ops : list op := [OCtor 0; OPush 0 0 1; OPush 0 0 2].
+Definition wit_self_ops : list op := [OCtor 0; OPush 0 0 11; OPush 0 0 22; OPushSelf 0 0].
+Definition wit_self_resize_ops : list op := [OCtor 0; OPush 0 0 5; OPush 0 0 6; OResizeSelf 0 5 0].
+
+Lemma wit_alloc_16 : forall c n, (16 | wit_alloc c n).
+Proof. intros c n. exists (1 + 256 * Z.of_nat c). unfold wit_alloc. lia. Qed.
+Lemma wit_amalloc_aligned : forall c n a, is_pow2 a -> (a | wit_amalloc c n a).
+Proof. intros c n a _. unfold wit_amalloc. apply Z.divide_factor_l. Qed.
+
+(* contents of slot k after a run, or [] *)
+Definition contents_after (r : res (slots * ledger)) (k : nat) : list Z :=
+  match r with
+  | Ok (s, _) => match nth_error s k with Some (Some v) => map cell_val (firstn (vsize v) (data v)) | _ => [] end
+  | Err _ => []
+  end.
+Definition heap_aligned_after (al szT : Z) (r : res (slots * ledger)) : bool :=
+  match r with Ok (s, g) => heap_alignedb szT al s g | Err _ => false end.
